@@ -1004,7 +1004,7 @@ func TestVerifC17Start(t *testing.T) {
 			vfC17Start(t, s, c, "corpus")
 		}
 	}
-	n := vfutil.Scale(60, 1100)
+	n := vfutil.Scale(60, 700)
 	for i := 0; i < n; i++ {
 		vfC17Start(t, s, vfC17StartGen(r.Fork()), "gen")
 	}
